@@ -87,6 +87,42 @@ def well_formed_sources(sig):
     return set(src) - {DEPTHS} == set(sig.parameters)
 
 
+def handed_over(obj, value):
+    # inspect itself (which honours __signature__ anywhere along the __wrapped__ / __call__ chain)
+    # already answers with an upgraded signature: plain retrieval returns that object untouched
+    try:
+        from sigtools import _util, _signatures
+        with monitor.suppressed():
+            raw = _util.funcsigs.signature(obj)
+        if isinstance(raw, _signatures.UpgradedSignature):
+            return True
+    except Exception:
+        pass
+    seen = 0
+    todo = [obj]
+    while todo and seen < 12:
+        o = todo.pop()
+        seen += 1
+        try:
+            d = object.__getattribute__(o, '__dict__')
+        except Exception:
+            d = {}
+        if not isinstance(d, dict):
+            d = {}
+        if d.get('__signature__') is value:
+            return True
+        for nxt in (d.get('__wrapped__'), getattr(o, '__func__', None)):
+            if nxt is not None:
+                todo.append(nxt)
+        try:
+            call = type(o).__dict__.get('__call__') if not isinstance(o, type) else None
+        except Exception:
+            call = None
+        if call is not None and hasattr(call, '__dict__'):
+            todo.append(call)
+    return False
+
+
 class Provenance(Monitor):
     points = ('merge', 'embed', 'mask', '_mask', 'forwards', 'signature', 'forged_signature')
     prop = 'C08'
@@ -139,6 +175,12 @@ class Provenance(Monitor):
             rp = dict(workload='retrieval', op=point, subject=fname(subject))
             w = {'op': point, 'subject': fname(subject), 'result': show(value),
                  'result_sources': sources_view(value)}
+        if point == 'signature' and args and handed_over(args[0], value):
+            # the object (or something in its __wrapped__ chain) carries this very signature object as
+            # __signature__: plain retrieval hands it back as it is -- its provenance is whatever the one
+            # who stored it wrote (the repository's tests store hand-made ones), not sigtools' doing
+            ctx.count('C08.signature_attribute_handed_back')
+            return
         ctx.evaluated()
         ctx.count('C08.%s' % point)
         self.structural(point, value, sig_inputs, w, rp)
